@@ -31,9 +31,9 @@ CLAIMED = {
     "C01": ("Proved for every CIGAR/POS/reference length: the row built from a record has the reference length and at every reference position holds the cell a two-counter walk of the CIGAR assigns (one_line_cell); per-column flattening gives 'N' for two different bases and otherwise the greatest of base > '-' > '*'; the flank/internal rewrite and the --pad rewrite are characterised position-wise; records with 0x4/0x100 never contribute wherever they sit; composed: the row of a block before the rewrite is, at every reference position, the flattening of the cells its records' CIGARs align there. The whole command (grouping, flattening, rewrite, window, wrap, writers) is a Coq model compared byte for byte with sam.ToMultiAlign, and the implementation's bytes are also compared with an oracle written from the statement.",
             "Coq proof (induction over CIGAR operators and columns) + correspondence check + statement-level oracle",
             "SAM text parsing (biogo/hts) is trusted; block = consecutive records of one name. Window, wrap and writer stages are composed only in the executable model (tied by the correspondence check and the oracle).", "5 C01"),
-    "C04": ("Proved (model carries, next to every emitted record, the reference positions it mentions): the coordinate map sends position p to its own non-gap column; every position is in a reported region or in the intergenic list, never both; intergenic nuc: records iff the symbols test disjoint; the codon loop of a region (any strand/joins, length multiple of 3) mentions EXACTLY the region's positions whose symbols test disjoint (invariant over the fold); the merged list mentions p iff p is a reference position whose symbols test disjoint; after the stable sort and duplicate removal nothing is invented (soundness) and nothing is dropped (completeness, under the visible side condition that no two aa: records of the sorted list are equal - true for distinct feature names). The aa: decision itself (R/Q are the translations) is decided by the byte-for-byte correspondence with variants.Variants and by an oracle written from the statement that checks every row of the implementation's output against the standard code, strands and joins.",
+    "C04": ("Proved (model carries, next to every emitted record, the reference positions it mentions): the coordinate map sends position p to its own non-gap column; every position is in a reported region or in the intergenic list, never both; intergenic nuc: records iff the symbols test disjoint; the codon loop of a region (any strand/joins, length multiple of 3) mentions EXACTLY the region's positions whose symbols test disjoint (invariant over the fold); the merged list mentions p iff p is a reference position whose symbols test disjoint; after the stable sort and duplicate removal nothing is invented (soundness) and nothing is dropped (completeness, for pairwise distinct feature names: records of one feature differ in residue number, of different features in name). The aa: rule per feature: the codon loop is a function of consecutive position triples (codon_loop_spec); an aa: record for codon j is emitted exactly when the query codon's product on the feature's strand is neither X nor the reference residue, with residue j+1, both residues and the feature name (sound and complete); that product is b iff the codon consists of three IUPAC codes all of whose expansions translate to b under the standard genetic code; the GFF path's reference residues are the unique products of the reference codons. The whole command is also compared byte for byte with variants.Variants and every output row is checked by an oracle written from the statement (standard code, strands, joins).",
             "Coq proof (fold invariant over the codon loop, partition, sort/dedupe lemmas) + correspondence check + statement-level oracle",
-            "PARTIAL: aa_sound / aa_complete (the named amino acids are the true translations) have no theorem; the side condition of completeness (aa_uniq of the sorted list) is assumed, not derived from distinct feature names. Regions are taken from the implementation's parsers (C14).", "5 C04"),
+            "PARTIAL: the aa: theorems are per feature (getAAsPair); that every aa: record survives the merge/sort/duplicate removal is not separately stated; GenBank /translation text and the regions built by the implementation's parsers (C14) are inputs.", "5 C04"),
     "C05": ("Proved for every pair of rows: the code's scan (alignment positions + the MSAToRef offset table that is 0 at reference-gap columns) equals the reference-coordinate machine indels_ref (insertion at P = reference bases to its left; deletion at 1 + reference bases to its left; one record per maximal run; start- and end-abutting deletions dropped), and the reported list is invariant under insertion of columns that are gaps in both rows. Correspondence: variants.Variants on indel-rich alignments, each also run with random double-gap columns added (outputs must be identical), every row checked against ins/del lists computed from the statement, Coq model byte for byte.",
             "Coq proof (simulation between the alignment-coordinate and reference-coordinate machines) + correspondence check + metamorphic companion + statement-level oracle",
             "FASTA-MSA form here; the SAM form goes through C11.", "5 C05"),
